@@ -183,6 +183,14 @@ theorem asmProgram_spec (a : Arch) (lines : List (Option Instr)) (ws : List Bits
       exact ⟨hl, hcap, fun p hp => ⟨hall p hp, asm_width a p.1 p.2 (hall p hp), disasm_asm a p.1 p.2 (hall p hp)⟩⟩
     · cases h
 
+/-- `Machine.Disassembler` on a whole assembled program gives back the source's instructions (in
+    normal form), in order: no word's text depends on its neighbours. -/
+theorem disasmProgram_asmProgram (a : Arch) (lines : List (Option Instr)) (ws : List Bits)
+    (h : asmProgram a lines = .ok ws) :
+    disasmProgram a ws = some ((lines.filterMap id).map normalise) := by
+  obtain ⟨hl, _, hall⟩ := asmProgram_spec a lines ws h
+  exact mapM_some_of_zip (disasm a) normalise _ ws hl (fun p hp => (hall p hp).2.2)
+
 /-- one failing line fails the whole program (no partial ROM) -/
 theorem asmProgram_fails (a : Arch) (lines : List (Option Instr)) (i : Instr) (e : AsmErr)
     (hi : some i ∈ lines) (he : asm a i = .error e) : ∃ e', asmProgram a lines = .error e' := by
@@ -206,6 +214,8 @@ example : (asmProgram demoArch [none, some ⟨"rset", [.reg 3, .num 255]⟩, non
     (fun ws => (ws.length, ws.map List.length)) = some (2, [13, 13]) := by decide
 /-- nine instructions do not fit a ROM of 2^3 words -/
 example : (asmProgram demoArch (List.replicate 9 (some ⟨"j", [.num 0]⟩))).toOption = none := by decide
+example : disasmProgram demoArch [ofString01 "1001111111111", ofString01 "0101010000000"] =
+    some [⟨"rset", [.reg 3, .num 255]⟩, ⟨"j", [.num 5]⟩] := by decide
 
 
 /-- shared-object operands: two queues need one index bit; `q1` is the second queue, `q2` and `st0` are refused -/
